@@ -4,7 +4,7 @@
    metadata, any mixture of schemas over time, rejected Adds). *)
 From Coq Require Import ZArith NArith List Bool Lia Arith.
 From FV.Model Require Import Bytes Bson Metrics Codec Collector Wf RoundTrip CollectorOk.
-From FV.Proofs Require Import BytesProofs BsonProofs MetricsProofs CodecChunk CodecProofs CollectorHyps.
+From FV.Proofs Require Import BytesProofs BsonProofs MetricsProofs CodecChunk CodecProofs.
 Import ListNotations.
 Open Scope Z_scope.
 
